@@ -482,8 +482,7 @@ def r5_recursor(text, recursor_bodies):
         k = cl + 1
         while m[k] in ' \t\n':
             k += 1
-        if m[k] != '?':
-            raise AnchorLost('R5: recursor call without `?`')
+        direct_q = m[k] == '?'
         args = split_args(m, text, op, cl)
         params, body = recursor_bodies[meth]
         if not params or params[0] != 'self' or len(params) - 1 != len(args):
@@ -505,7 +504,12 @@ def r5_recursor(text, recursor_bodies):
         if not fm:
             raise AnchorLost('R5: recursor body does not end in Ok(..)')
         final = b[fm.start(1):fm.end(1)]
-        b = b[:fm.start()] + final
+        if direct_q:
+            b = b[:fm.start()] + final
+        else:
+            # the call is not directly followed by `?` (e.g. it is the value of an if-branch and the `?`
+            # follows the whole expression): keep the Result, with the error type spelled out for inference
+            b = b[:fm.start()] + 'AllocResult::Ok(' + final + ')'
 
         def sub_ident(s_, name, repl):
             ms = mask(s_)
@@ -534,7 +538,7 @@ def r5_recursor(text, recursor_bodies):
         b = sub_ident(b, 'self', key)
         for kk, val in ph.items():
             b = b.replace(kk, val)
-        text = text[:mm.start()] + '{' + b + '}' + text[k + 1:]
+        text = text[:mm.start()] + '{' + b + '}' + (text[k + 1:] if direct_q else text[cl + 1:])
         cnt += 1
 
 
